@@ -98,16 +98,27 @@ pub fn repo_build_data(d: &DataDesc, nwk: &[u8; 16], app: Option<&[u8; 16]>, buf
         RefPayload::Data { port, data } => (Payload::Data { f_port: NonZeroU8::new(*port).expect("generator never makes Data on port 0"), data }, ()),
         RefPayload::Mac(c) => (Payload::MacCommands(c), ()),
     };
-    let frame = DataFrame {
-        frame_type: ftype_to_repo(d.ftype),
-        dev_addr: DevAddr::from_value(d.dev_addr),
-        adr: d.adr,
-        adr_ack_req: d.adr_ack_req,
-        ack: d.ack,
-        f_pending: d.f_pending,
-        fcnt: d.fcnt,
-        f_opts: &d.fopts,
-        payload,
+    // a description that leaves the header flags (and more) at their documented defaults is written the way
+    // applications write it: with struct update syntax from `DataFrame::default()`
+    let plain_flags = !d.adr && !d.adr_ack_req && !d.ack && !d.f_pending;
+    let frame = if plain_flags && d.fopts.is_empty() && d.fcnt == 0 && d.dev_addr == 0 && d.ftype == FType::UnconfUp {
+        DataFrame { payload, ..Default::default() }
+    } else if plain_flags && d.fopts.is_empty() {
+        DataFrame { frame_type: ftype_to_repo(d.ftype), dev_addr: DevAddr::from_value(d.dev_addr), fcnt: d.fcnt, payload, ..Default::default() }
+    } else if plain_flags {
+        DataFrame { frame_type: ftype_to_repo(d.ftype), dev_addr: DevAddr::from_value(d.dev_addr), fcnt: d.fcnt, f_opts: &d.fopts, payload, ..Default::default() }
+    } else {
+        DataFrame {
+            frame_type: ftype_to_repo(d.ftype),
+            dev_addr: DevAddr::from_value(d.dev_addr),
+            adr: d.adr,
+            adr_ack_req: d.adr_ack_req,
+            ack: d.ack,
+            f_pending: d.f_pending,
+            fcnt: d.fcnt,
+            f_opts: &d.fopts,
+            payload,
+        }
     };
     let mut buf = vec![0xA5u8; buflen];
     let bufptr = buf.as_ptr();
